@@ -707,19 +707,49 @@ fn run_b(rep: &mut Report, a: &Args, rng: &mut Rng, w: &mut World) {
 		let fee = ctx.fee.map(|f| f.fee()).unwrap_or(0);
 		if mode == 2 {
 			// late lock: nothing selected yet; complete the exchange and judge the reservation
+			// sometimes the wallet's coins change between initiation and the late selection (another
+			// send of the same account reserves one of them), so that re-selection no longer gives
+			// the inputs - and possibly not the fee - foreseen at initiation
+			let mut drift_id: Option<Uuid> = None;
+			if rng.chance(1, 2) {
+				let _ = wal.set_account(&src_label);
+				let d = wal.init_send(InitTxArgs { amount: 10_000_000 + rng.below(500_000_000), minimum_confirmations: minconf, selection_strategy_is_use_all: false, ..Default::default() });
+				if let Ok(ds) = d {
+					if wal.lock_outputs(&ds).is_ok() {
+						drift_id = Some(ds.id);
+						rep.count("B:late-lock-with-coin-drift");
+					}
+				}
+				let _ = wal.set_account(active);
+			}
+			let pre_fin_outs = wal.all_outputs().unwrap_or_default();
 			let r = catch(|| -> Result<libwallet::Slate, libwallet::Error> {
 				let s2 = other.receive(&slate, None)?;
 				wal.finalize(&s2)
 			});
+			let release_drift = |wal: &Wallet| {
+				if let Some(d) = drift_id {
+					let _ = wal.set_account(&src_label);
+					let _ = wal.cancel(None, Some(d));
+				}
+			};
 			match r {
 				Err((loc, msg)) => {
 					rep.violation(&format!("C01|panic|late-lock-finalize|{}", loc), &msg, case());
+					release_drift(wal);
 					continue;
 				}
 				Ok(Err(e)) => {
 					rep.count(&format!("B:late-lock-finalize-refused:{}", err_kind(&e)));
-					// whatever a refused late-locked finalization reserved must at least belong to the source account
+					if std::env::var("GWV_DEBUG").is_ok() { eprintln!("late-lock finalize refused: {:?}", e); }
+					// an honest reply that cannot be completed must not leave funds reserved
 					let outs_after = wal.all_outputs().unwrap_or_default();
+					let newly: Vec<&OutputData> = outs_after.iter().filter(|o| o.status == OutputStatus::Locked && pre_fin_outs.iter().find(|b| b.key_id == o.key_id && b.mmr_index == o.mmr_index).map(|b| b.status != OutputStatus::Locked).unwrap_or(true)).collect();
+					if !newly.is_empty() {
+						let v: u128 = newly.iter().map(|o| o.value as u128).sum();
+						rep.violation("C01|late-lock-refused-but-funds-reserved", &format!("late-locked finalize (honest reply) was refused with {} but left {} outputs worth {} reserved for a payment of {}", err_kind(&e), newly.len(), v, amount), case());
+					}
+					// whatever a refused late-locked finalization reserved must at least belong to the source account
 					for o in outs_after.iter().filter(|o| o.status == OutputStatus::Locked && o.root_key_id != parent) {
 						let was = before_outs.iter().find(|b| b.key_id == o.key_id && b.mmr_index == o.mmr_index);
 						if was.map(|b| b.status != OutputStatus::Locked).unwrap_or(true) {
@@ -727,6 +757,7 @@ fn run_b(rep: &mut Report, a: &Args, rng: &mut Rng, w: &mut World) {
 						}
 					}
 					let _ = other.cancel(None, Some(sid));
+					release_drift(wal);
 					cancel_all(sid);
 					continue;
 				}
@@ -743,7 +774,9 @@ fn run_b(rep: &mut Report, a: &Args, rng: &mut Rng, w: &mut World) {
 							let chg: u128 = outs_after.iter().filter(|o| o.tx_log_entry == Some(e.id) && o.root_key_id == e.parent_key_id && o.status == OutputStatus::Unconfirmed).map(|o| o.value as u128).sum();
 							let in_total: u128 = ins.iter().map(|o| o.value as u128).sum();
 							for i in ins.iter() {
-								let b = before_outs.iter().find(|o| o.key_id == i.key_id && o.mmr_index == i.mmr_index);
+								// judged on the wallet as it was right before the late selection (an intervening send
+								// may have reserved coins or, with minimum_confirmations = 0, added unconfirmed change)
+								let b = pre_fin_outs.iter().find(|o| o.key_id == i.key_id && o.mmr_index == i.mmr_index);
 								if b.map(|o| !spendable(o, &parent, height, minconf)).unwrap_or(true) {
 									rep.violation("C01|late-lock-input-not-spendable", &format!("late-locked input {} was not spendable", out_json(i)), case());
 								}
@@ -757,6 +790,7 @@ fn run_b(rep: &mut Report, a: &Args, rng: &mut Rng, w: &mut World) {
 							}
 						}
 					}
+					release_drift(wal);
 					cancel_all(sid);
 					let _ = other.cancel(None, Some(sid));
 					continue;
